@@ -880,6 +880,21 @@ pub fn spec(id: &str, variant: &str, cancelable: bool, thorough: bool) -> Option
             nontrivial: nt_c17,
             rule: "local-span forests captured under LocalCollector::start (any shape, events/properties, 0-3 spans open at collect()), pushed to 1-6 parents (roots, children, multi-parent, unsampled/no-op) and converted with to_span_records for generated contexts; non-trivial = forest of >=3 spans with >=1 event/property pushed to >=2 sampled parents, or >=1 span open at collection that is pushed or converted; distinct = hash of the executed model shape",
         },
+        // the same timing oracle with the collector's cycle cut into steps: spans created, spun in
+        // and finished while a cycle is between two queues (each cycle converts with the clock
+        // reading it took)
+        ("C18", "sched") => {
+            let mut sp = spec("C18", "api", cancelable, thorough).unwrap();
+            sp.profile.threads = (2, 3);
+            sp.profile.ops = (0, 12);
+            sp.profile.cycles = (1, 5);
+            sp.profile.sched_len = (4, 40);
+            sp.profile.templates = vec![];
+            sp.profile = sp.profile.set(&[(K::Many, 0), (K::Flush, 2), (K::Spin, 18), (K::Root, 12), (K::Finish, 18)]);
+            sp.opts = ExecOpts { brackets: true, ..ExecOpts::new(Mode::Sched) };
+            sp.rule = "the same programs under the hooked scheduler: 2-3 vthreads, spins of 0-300us, collector cycles cut at every queue by the generated schedule, so that spans begin, spin and finish while a cycle is in progress; non-trivial as for the api variant";
+            sp
+        }
         ("C18", _) => PropSpec {
             id: "C18",
             profile: big(Profile {
@@ -922,6 +937,7 @@ pub fn spec(id: &str, variant: &str, cancelable: bool, thorough: bool) -> Option
                 reentrant: true,
                 ..base.clone().set(&[
                     (K::Churn, 1),
+                    (K::DecodeText, 3),
                     (K::MultiChild, 8),
                     (K::Noop, 5),
                     (K::AddPropsH, 6),
@@ -1065,6 +1081,7 @@ pub fn spec(id: &str, variant: &str, cancelable: bool, thorough: bool) -> Option
                 threads: (1, 2),
                 ops: (0, 26),
                 p_sampled: 0.8,
+                adapter_kinds: vec![AdapterKind::InSpan, AdapterKind::InSpanEnterOnPoll, AdapterKind::EnterOnPoll, AdapterKind::Stream, AdapterKind::Sink],
                 ..base.clone().set(&[
                     (K::Noop, 10),
                     (K::Child, 12),
@@ -1085,6 +1102,10 @@ pub fn spec(id: &str, variant: &str, cancelable: bool, thorough: bool) -> Option
                     (K::ChildOfLocal, 10),
                     (K::CtxOfLocal, 2),
                     (K::PushChildSpans, 2),
+                    // futures bound to non-recording spans: local operations inside their polls
+                    (K::Wrap, 5),
+                    (K::Drive, 9),
+                    (K::DropAdapter, 1),
                 ])
             }),
             opts: ExecOpts {
